@@ -71,11 +71,13 @@ PYFLOAT_NEEDS_SIZE = ("LinearInfinite", "Hyperbolic")  # their deriv() uses x.si
 
 
 def cases(tier, seed):
-    reps = 3 if tier == "quick" else 40
+    reps = 2 if tier == "quick" else 40
     out = []
     for rep in range(reps):
         for order in (1, 2, 3):
             for ti, tol in enumerate(TOLS):
+                if tier == "quick" and rep == 1 and ti != (seed + order) % len(TOLS):
+                    continue  # quick: one complete cross product plus a seed-rotated third of a second one
                 for label, cls in TRANSFORMS:
                     for method in METHODS:
                         cost = (1.0 + ti) * order * (2.0 if method in ("Radau", "BDF") else 1.0)
